@@ -89,6 +89,7 @@ fn main() {
         "C03" => check::c03::run(&ctx),
         "C06" => check::c06::run(&ctx),
         "C11" => check::c11::run(&ctx),
+        #[cfg(feature = "real")]
         "C14" => check::c14::run(&ctx),
         "C15" => check::c15::run(&ctx),
         "C12" => check::hon::run_c12(&ctx),
